@@ -320,7 +320,7 @@ PROPS["C08"] = {
     ],
     "units": [
         rapid_unit("cuts", "^TestC08_CrashCut$", quick={"checks": 480, "shards": 16, "timeout_s": 420, "shrinktime": "45s"},
-                   thorough={"checks": 16000, "shards": 16, "timeout_s": 3000, "shrinktime": "90s"}),
+                   thorough={"checks": 8000, "shards": 16, "timeout_s": 3000, "shrinktime": "90s"}),
         plain_unit("replay", "^TestC08_Replay$", replay=True),
     ],
 }
@@ -341,7 +341,7 @@ PROPS["C16"] = {
     ],
     "units": [
         rapid_unit("compaction", "^TestC16_Compaction$", quick={"checks": 480, "shards": 16, "timeout_s": 420, "shrinktime": "45s"},
-                   thorough={"checks": 16000, "shards": 16, "timeout_s": 3000, "shrinktime": "90s"}),
+                   thorough={"checks": 8000, "shards": 16, "timeout_s": 3000, "shrinktime": "90s"}),
         plain_unit("replay", "^TestC16_Replay$", replay=True),
     ],
 }
